@@ -4,6 +4,7 @@ Translator leg for C01: facts extracted from the Rust source by tools/gen_consta
 structure in the Rust breaks exactly these obligations, independently of the correspondence run.
 -/
 import WowSrp.Gen.Constants
+import WowSrp.Gen.Facts
 namespace WowSrp
 
 /-- C01/C03: the SRP modules keep no state between calls (no statics, thread-locals, interior mutability),
